@@ -69,7 +69,7 @@ pub fn vehicle_type(type_id: &str, ids: usize, capacity: &[i64], shifts: Vec<PSh
 }
 
 fn base(name: String, jobs: Vec<PJob>, vehicles: Vec<PVehicleType>) -> PProblem {
-    PProblem { name, jobs, vehicles, matrices: vec![standard_matrix("car", 5)], relations: vec![], objectives: None, clustering: None }
+    PProblem { name, jobs, vehicles, matrices: vec![standard_matrix("car", 5)], relations: vec![], objectives: None, clustering: None, resources: vec![] }
 }
 
 fn multisets(n: usize, k: usize) -> Vec<Vec<usize>> {
@@ -385,8 +385,8 @@ pub fn family_cond(_tier: Tier) -> Vec<PProblem> {
             for with_pickup in [false, true] {
                 let mut s = shift(ShiftKind::Closed);
                 s.reloads = vec![
-                    PReload { loc: reload_loc, duration: 4., times: vec![], tag: Some("r1".into()) },
-                    PReload { loc: reload_loc, duration: 4., times: vec![], tag: Some("r2".into()) },
+                    PReload { loc: reload_loc, duration: 4., times: vec![], tag: Some("r1".into()), resource_id: None },
+                    PReload { loc: reload_loc, duration: 4., times: vec![], tag: Some("r2".into()), resource_id: None },
                 ];
                 let mut jobs = deliveries(n);
                 if with_pickup {
@@ -394,6 +394,19 @@ pub fn family_cond(_tier: Tier) -> Vec<PProblem> {
                 }
                 out.push(base(format!("cond/reload/n{n}/l{reload_loc}/p{with_pickup}"), jobs, vec![vehicle_type("v", 1, &[2], vec![s])]));
             }
+        }
+    }
+    // shared reload resource: two vehicles draw from one stock
+    for n in [5usize, 6] {
+        for stock in [4i64, 6] {
+            let mut s = shift(ShiftKind::Closed);
+            s.reloads = vec![
+                PReload { loc: 0, duration: 4., times: vec![], tag: Some("r1".into()), resource_id: Some("stock".into()) },
+                PReload { loc: 0, duration: 4., times: vec![], tag: Some("r2".into()), resource_id: Some("stock".into()) },
+            ];
+            let mut p = base(format!("cond/resource/n{n}/stock{stock}"), deliveries(n), vec![vehicle_type("v", 2, &[2], vec![s])]);
+            p.resources = vec![("stock".into(), vec![stock])];
+            out.push(p);
         }
     }
     // optional breaks with / without location
@@ -410,7 +423,17 @@ pub fn family_cond(_tier: Tier) -> Vec<PProblem> {
         let s2 = PShift { start_loc: 0, start_earliest: 300., start_latest: None, end: Some((0, 500.)), breaks: vec![], reloads: vec![] };
         let mut jobs = deliveries(n);
         jobs[0].tasks[0].places[0].times = vec![(320., 400.)];
-        out.push(base(format!("cond/two-shifts/n{n}"), jobs, vec![vehicle_type("v", 1, &[2], vec![s1, s2])]));
+        out.push(base(format!("cond/two-shifts/n{n}"), jobs.clone(), vec![vehicle_type("v", 1, &[2], vec![s1.clone(), s2.clone()])]));
+        // a pickup-delivery job next to them: both shifts of the one vehicle drive a tour
+        let mut jobs = jobs;
+        jobs.push(job("pd", vec![task(Pickup, vec![place(1, 1., &[], Some("p"))], &[1]), task(Delivery, vec![place(3, 1., &[], Some("d"))], &[1])]));
+        out.push(base(format!("cond/two-shifts-pd/n{n}"), jobs.clone(), vec![vehicle_type("v", 1, &[2], vec![s1.clone(), s2.clone()])]));
+        // a job with two service tasks whose windows lie in different shifts: it cannot be served (one tour per job); C12 builds
+        // a consistent solution which serves its parts by the two shifts from the twin problem with two separate jobs
+        let mut jobs = jobs;
+        jobs.pop();
+        jobs.push(job("ss", vec![task(Service, vec![place(1, 2., &[(0., 90.)], Some("a"))], &[]), task(Service, vec![place(3, 2., &[(320., 450.)], Some("b"))], &[])]));
+        out.push(base(format!("cond/two-shifts-split/n{n}"), jobs, vec![vehicle_type("v", 1, &[2], vec![s1, s2])]));
     }
     out
 }
@@ -567,6 +590,7 @@ pub fn family_line12() -> Vec<PProblem> {
                 matrices: vec![PMatrix { profile: "car".into(), n, durations: line.clone(), distances: line, error_codes: None, timestamp: None }],
                 relations: vec![],
                 clustering: None,
+                resources: vec![],
                 objectives: Some(if objective_set == 0 {
                     json!([{"type": "minimize-unassigned"}, {"type": "minimize-tours"}, {"type": "compact-tour", "job_radius": 2}, {"type": "minimize-cost"}])
                 } else {
@@ -636,10 +660,10 @@ pub fn family_fleet4(_tier: Tier) -> Vec<PProblem> {
                 s.end = Some((0, 400.));
                 match kind {
                     0 => s.breaks = vec![PBreak { time: (30., 90.), duration: 7., loc: None, tag: Some("lunch".into()) }],
-                    1 => s.reloads = vec![PReload { loc: 0, duration: 4., times: vec![], tag: Some("r1".into()) }],
+                    1 => s.reloads = vec![PReload { loc: 0, duration: 4., times: vec![], tag: Some("r1".into()), resource_id: None }],
                     _ => {
                         s.breaks = vec![PBreak { time: (30., 90.), duration: 7., loc: None, tag: Some("lunch".into()) }];
-                        s.reloads = vec![PReload { loc: 0, duration: 4., times: vec![], tag: Some("r1".into()) }];
+                        s.reloads = vec![PReload { loc: 0, duration: 4., times: vec![], tag: Some("r1".into()), resource_id: None }];
                     }
                 }
                 let mut p = base(format!("fleet4/n{n}/k{kind}/r{with_relation}"), deliveries(n), vec![vehicle_type("v", 4, &[2], vec![s])]);
